@@ -1,13 +1,17 @@
 import RustCcModel.Proofs.CtlSimp
 import RustCcModel.Proofs.InvReach
 import RustCcModel.Proofs.Reach
+import RustCcModel.Proofs.Exact
 /-! # C04 — Rc equivalence: last-owner drop reclaims at once; `strong_count` is exact
 
 Step-level behaviour of `Cc::clone` / `Cc::drop` on the count, and the global invariant
 **the count of a live box is never below the number of pointers to it that exist** (`count_never_too_low`,
 for every world the machine can reach: any programs, callbacks, injected panics and their unwinding).
-The other half (never above, in panic-free histories) is checked on the implementation by the harness,
-which enumerates every `Cc` it holds or stored in a field. -/
+The other half — **`strong_count` is exact** as long as no panic has been unwound (`strong_count_exact`: the count equals
+the number of pointers that exist, in every world of every history in which the machine never executed an unwinding
+step) — is proved by the same induction with both inequalities; after a caught panic only `≤` is claimed, as the
+property allows ("too high, never too low"). The harness enumerates every `Cc` it holds or stored in a field and checks
+the same equation on the implementation. -/
 namespace RustCc.C04
 open World
 
@@ -115,6 +119,45 @@ theorem destroyed_object_unreachable (c : Cfg) (nH nW nK : Nat) (w : World) (h :
     exact List.mem_flatMap.2 ⟨_, hf, by simp [Frame.zeroed]⟩
   have := hi.oi.zero x hz
   exact ⟨this.1, this.2.1, zero_count_no_pointer c nH nW nK w h x this.2.1⟩
+
+/-! ## Exactness in panic-free histories -/
+
+/-- **`strong_count()` equals the number of `Cc` pointers that exist**, in every world of every history in which no panic
+has been unwound so far (any programs, callbacks, nested and automatic collections, finalizers that resurrect, …): table
+entries, stashed clones, pointers held by running code, traced / untraced / cleaner / captured pointer fields of all
+objects. (`stuck` = the model stopped on one of the crate's debug assertions.) -/
+theorem strong_count_exact (c : Cfg) (nH nW nK : Nat) (w : World) (h : ReachableR c nH nW nK w)
+    (hns : w.mode ≠ .stuck) (x : Id) : (w.heap x).rc = pointersTo w x :=
+  reachableR_count_exact c nH nW nK w h hns x
+
+/-- … in particular for what the driver computes for a program none of whose operations panics
+(`cleanProg`: decidable, evaluated on the concrete program): after the last operation every count is exact. -/
+theorem strong_count_exact_prog (c : Cfg) (nH nW nK fuel : Nat) (ops : List Op)
+    (hcl : cleanProg c fuel (World.init c nH nW nK) ops = true) (x : Id)
+    (hns : (ops.foldl (execTop c fuel) (World.init c nH nW nK)).mode ≠ .stuck) :
+    ((ops.foldl (execTop c fuel) (World.init c nH nW nK)).heap x).rc
+      = pointersTo (ops.foldl (execTop c fuel) (World.init c nH nW nK)) x :=
+  strong_count_exact c nH nW nK _ (reachableR_prog c nH nW nK fuel ops _ .init hcl) hns x
+
+/-- A count that is exact and 1 means: the pointer at hand is the only one (what `try_unwrap` relies on). -/
+theorem unique_pointer (c : Cfg) (nH nW nK : Nat) (w : World) (h : ReachableR c nH nW nK w) (hns : w.mode ≠ .stuck)
+    (x : Id) (h1 : (w.heap x).rc = 1) : pointersTo w x = 1 := by
+  rw [← strong_count_exact c nH nW nK w h hns x]; exact h1
+
+/-- After an unwinding the count may only be too high (`count_never_too_low` still holds): the panic-free restriction
+is necessary — `exLeak` is a reachable world (the finalizer run by the last-owner `Cc::drop` panicked: the pointer being
+dropped is gone, its count is not decremented) in which a count is strictly above the number of pointers. -/
+def exLeakCfg : Cfg := { scripts := #[[], [.panic]] }
+def exLeakSpec (fin : Nat) : NewSpec := { ns := 1, nu := 0, nw := 0, cleaner := false, fin := fin, drp := 0 }
+def exLeak : World := [Op.new 0 (exLeakSpec 1), .drop 0].foldl (execTop exLeakCfg 200) (World.init exLeakCfg 2 0 0)
+example : (exLeak.heap 0).boxLive = true ∧ pointersTo exLeak 0 < (exLeak.heap 0).rc ∧ exLeak.ret = .panic := by decide
+
+/-- Non-vacuity of the exactness theorem: a panic-free program (a cycle built, handles dropped, collected while a third
+object stays alive) satisfies `cleanProg`. -/
+def exCleanProg : List Op :=
+  [.new 0 (exLeakSpec 0), .new 1 (exLeakSpec 0), .new 2 (exLeakSpec 0), .setf (.of (.h 0)) (.f 0) (.h 1),
+   .setf (.of (.h 1)) (.f 0) (.h 0), .setf (.of (.h 2)) (.f 0) (.h 2), .clone (.h 2) 0, .drop 1, .collect]
+example : cleanProg {} 200 (World.init {} 3 0 0) exCleanProg = true := by decide
 
 /-- Non-vacuity: after `new` into entry 0 and `clone` into entry 1 the world is reachable, object 0 is
 live, two pointers to it exist and its count is 2. -/
